@@ -828,6 +828,7 @@ func parseRaceLogs(scratch string) []raceReport {
 			var r raceReport
 			r.Text = strings.TrimSpace(block)
 			ok := true
+			viaDep := false
 			for i := 0; i < 2; i++ {
 				owner, fn := "", ""
 				for _, f := range stacks[i] {
@@ -841,6 +842,21 @@ func parseRaceLogs(scratch string) []raceReport {
 				if owner == "harness" {
 					r.Harness = true
 				}
+				if owner == "other" {
+					// the access is inside a dependency (gorilla/websocket, net/http ...): it is
+					// charged to the ship-go function that made the call, if there is one - two
+					// ship-go goroutines using a dependency's object without synchronisation
+					for _, f := range stacks[i] {
+						if frameOwner(f) == "ship-go" {
+							owner, fn = "ship-go", f
+							viaDep = true
+							break
+						}
+						if frameOwner(f) == "harness" {
+							break
+						}
+					}
+				}
 				if owner != "ship-go" {
 					ok = false
 				}
@@ -851,11 +867,17 @@ func parseRaceLogs(scratch string) []raceReport {
 				r.Funcs[i] = fn
 			}
 			if !ok && !r.Harness {
-				continue // third-party frames innermost: not a race on ship-go state by ship-go code
+				continue // not a race between two ship-go call sites
+			}
+			if r.Harness && viaDep {
+				// a harness frame further out than a dependency frame does not make it a harness race
 			}
 			fs := []string{r.Funcs[0], r.Funcs[1]}
 			sort.Strings(fs)
 			r.Signature = "race:" + fs[0] + "|" + fs[1]
+			if viaDep {
+				r.Signature = "race-in-dependency:" + fs[0] + "|" + fs[1]
+			}
 			out = append(out, r)
 		}
 	}
